@@ -24,7 +24,9 @@ ASSUMPTIONS = [
     "strict parser in rv/msmodel.py (quoted strings with only \\\\ and \\\" escapes and no "
     "CR/LF/NUL, non-synchronising literals {n+}, unquoted decimal numbers, CRLF)",
     "the server answers OK to everything (C08 is about what is sent)",
-    "lone surrogates are not Unicode text and are not generated",
+    "a small stratum passes str values containing lone surrogates (not Unicode text, no "
+    "UTF-8 encoding): the only demand there is a refusal (Error or UnicodeEncodeError) with "
+    "nothing written",
 ]
 FLOORS = {"quick": {"calls": 100000, "calls-with-special-values": 50000},
           "thorough": {"calls": 9000000, "calls-with-special-values": 4000000}}
@@ -34,6 +36,7 @@ FRAGS = ["a", "script", "x y", '"', "\\", '\\"', "\r", "\n", "\r\n", "\x00", "{"
          "{5+}", "{3+}\r\nabc", "{0}", "{1+}\r\n", "é", "日本語", "\U0001F600", "",
          '" "other', '"\r\nDELETESCRIPT "victim"\r\n', "a" * 1000, "'", "(", "*", " ", "\t",
          "LOGOUT", "\r\nLOGOUT\r\n", "%s", "\\\\", "end\\"]
+SURROGATES = ["\udcff", "\udc80", "\ud800", "a\udfffb", "\udcc3\udca9"]
 SIZES = [0, 1, 1000, 2 ** 31, 2 ** 32, 2 ** 63, 2 ** 63 - 1, 42]
 
 
@@ -46,7 +49,10 @@ def plan(tier, seed):
 
 def value(rng):
     k = rng.choice([1, 1, 1, 2, 2, 3])
-    return "".join(rng.choice(FRAGS) for _ in range(k))
+    v = "".join(rng.choice(FRAGS) for _ in range(k))
+    if rng.random() < 0.02:
+        v += rng.choice(SURROGATES)
+    return v
 
 
 def trigger_of(vals):
@@ -94,8 +100,20 @@ def make_call(rng):
     return op, a, exp
 
 
+def has_surrogate(args):
+    return any(isinstance(a, str) and any(0xD800 <= ord(ch) <= 0xDFFF for ch in a)
+               for a in args)
+
+
 def judge(op, args, exp, outcome, sent):
     """-> None or (defect, detail)"""
+    if has_surrogate(args):
+        # a str with a lone surrogate has no UTF-8 encoding: the value cannot be encoded,
+        # the call has to refuse (Error, or the UnicodeEncodeError the unchanged tree
+        # raises) having written nothing
+        if outcome[0] == "exc" and outcome[1] in ("Error", "UnicodeEncodeError") and not sent:
+            return None
+        return ("unencodable-value-not-refused", "outcome %r sent %r" % (outcome[:2], sent[:80]))
     if outcome[0] == "exc":
         if outcome[1] == "Error" and not sent:
             return None  # refused before writing anything
@@ -155,6 +173,8 @@ def run_shard(tier, shard, res: Result):
         res.observe("triggers", trig)
         res.observe("ops", op)
         res.case(repr((op, args)), nontrivial=bool(args))
+        if has_surrogate(args):
+            res.count("calls-with-lone-surrogates")
         bad = judge(op, args, exp, out, sent)
         res.monitor("one-wellformed-command", bad is not None)
         if bad:
